@@ -292,6 +292,8 @@ type (
 	}
 	// Block is { ... }.
 	Block struct{ Body []Stmt }
+	// Raw is source text emitted verbatim (used by fault-injecting monitors; never interpreted).
+	Raw struct{ Text string }
 )
 
 // MatchArm is one arm.
@@ -329,6 +331,7 @@ type Program struct {
 	Funcs    []*Func
 	Main     []Stmt
 	Features map[string]bool
+	RawDecls []string // extra top-level declarations emitted verbatim before main
 }
 
 // ---- printer --------------------------------------------------------------------------------
@@ -366,6 +369,12 @@ func (pr *Program) Source() string {
 	}
 	for _, f := range pr.Funcs {
 		p.fn(f)
+		p.line("")
+	}
+	for _, d := range pr.RawDecls {
+		for _, l := range strings.Split(d, "\n") {
+			p.line(l)
+		}
 		p.line("")
 	}
 	p.line("fn main() {")
@@ -511,6 +520,10 @@ func (p *printer) stmt(s Stmt) {
 		p.stmts(n.Body)
 		p.ind--
 		p.line("}")
+	case *Raw:
+		for _, l := range strings.Split(n.Text, "\n") {
+			p.line(l)
+		}
 	default:
 		p.line(fmt.Sprintf("/* unknown stmt %T */", s))
 	}
